@@ -499,3 +499,5 @@ func TestVectors(t *testing.T) {
 		t.Fatalf("reference curve arithmetic is wrong")
 	}
 }
+
+func hexOf(b []byte) string { return conv.Hex(b) }
